@@ -22,7 +22,17 @@ pub enum Op {
     /// a block in which key `from` pays the wallet `amount_sel`/65536 of one of its outputs
     Receive { from: u8, amount_sel: u16 },
     /// the wallet builds a transaction (Transaction::create): payee, fraction of balance, fee
-    Build { to: u8, amount_sel: u16, fee: u64 },
+    /// `mode` 0: one payment of amount_sel/131072 of the balance. 1: one payment of
+    /// u64::MAX - amount_sel. 2: two payments (Transaction::create_with_multiple_payments) of
+    /// 2^63 and 2^63 + amount_sel%1000 (the u64 sum wraps). 3: two payments of 1/8 and 1/16 of the
+    /// balance.
+    Build {
+        to: u8,
+        amount_sel: u16,
+        fee: u64,
+        #[serde(default)]
+        mode: u8,
+    },
     /// a block including the built-but-not-included transactions selected by mask
     Include { mask: u8 },
     /// drop the oldest built transaction (never included)
@@ -43,6 +53,8 @@ pub struct Case {
 pub struct Info {
     pub steps: usize,
     pub built: usize,
+    pub built_multi: usize,
+    pub extreme_requests: usize,
     pub included: usize,
     pub received: usize,
     pub reorgs: usize,
@@ -123,8 +135,13 @@ pub fn run_case(case: &Case) -> (Vec<(String, String)>, Info) {
                     }
                 }
             }
-            Op::Build { to, amount_sel, fee } => {
-                opname = "build";
+            Op::Build { to, amount_sel, fee, mode } => {
+                opname = match mode % 4 {
+                    0 => "build",
+                    1 => "build_huge_amount",
+                    2 => "build_two_payments_wrapping_sum",
+                    _ => "build_two_payments",
+                };
                 let path = match table.path(&tip_hash) {
                     Some(p) => p,
                     None => break,
@@ -132,10 +149,19 @@ pub fn run_case(case: &Case) -> (Vec<(String, String)>, Info) {
                 let (ledger, _) = RefLedger::replay(gp, &path);
                 let (bal, _, _, _) = wallet_view(&node);
                 let amount = (((bal as u128) * (*amount_sel as u128)) >> 17) as u64;
+                let second = key(1 + (*to % 3)).0;
+                if matches!(mode % 4, 1 | 2) {
+                    info.extreme_requests += 1;
+                }
                 let out = catch(|| {
                     block_on(async {
                         let mut w = node.wallet.write().await;
-                        Transaction::create(&mut w, key(*to).0, amount, *fee, false, None, tip_id, gp)
+                        match mode % 4 {
+                            0 => Transaction::create(&mut w, key(*to).0, amount, *fee, false, None, tip_id, gp),
+                            1 => Transaction::create(&mut w, key(*to).0, u64::MAX - *amount_sel as u64, *fee, false, None, tip_id, gp),
+                            2 => Transaction::create_with_multiple_payments(&mut w, vec![key(*to).0, second], vec![1u64 << 63, (1u64 << 63) + (*amount_sel as u64 % 1000)], *fee, None, tip_id, gp),
+                            _ => Transaction::create_with_multiple_payments(&mut w, vec![key(*to).0, second], vec![bal >> 3, bal >> 4], *fee, None, tip_id, gp),
+                        }
                     })
                 });
                 match out {
@@ -149,6 +175,9 @@ pub fn run_case(case: &Case) -> (Vec<(String, String)>, Info) {
                         tx.sign(&me.1);
                         tx.generate(&me.0, 0, 0);
                         info.built += 1;
+                        if mode % 4 == 3 {
+                            info.built_multi += 1;
+                        }
                         // never the same output twice
                         let keys: Vec<UKey> = tx.from.iter().filter(|s| s.amount > 0).map(|s| ukey_of_slip(s)).collect();
                         let set: BTreeSet<&UKey> = keys.iter().collect();
@@ -317,6 +346,8 @@ fn eval(c: &mut Ctx, case: &Case, counting: bool) -> Vec<(String, String)> {
         }
         for (n, k) in [
             (info.built, "transactions_built_by_wallet"),
+            (info.built_multi, "built_with_two_payments"),
+            (info.extreme_requests, "requests_with_amounts_near_2^63/2^64"),
             (info.included, "built_transactions_included"),
             (info.received, "incoming_payments"),
             (info.reorgs, "reorganisations"),
@@ -342,7 +373,7 @@ fn eval(c: &mut Ctx, case: &Case, counting: bool) -> Vec<(String, String)> {
 pub fn arb_op() -> impl Strategy<Value = Op> {
     prop_oneof![
         3 => (0u8..3, any::<u16>()).prop_map(|(from, amount_sel)| Op::Receive { from, amount_sel }),
-        4 => (1u8..4, any::<u16>(), prop_oneof![Just(0u64), 1u64..100_000]).prop_map(|(to, amount_sel, fee)| Op::Build { to, amount_sel, fee }),
+        4 => (1u8..4, any::<u16>(), prop_oneof![4 => Just(0u64), 4 => 1u64..100_000, 1 => (u64::MAX - 70_000)..=u64::MAX], prop_oneof![12 => Just(0u8), 1 => Just(1u8), 1 => Just(2u8), 2 => Just(3u8)]).prop_map(|(to, amount_sel, fee, mode)| Op::Build { to, amount_sel, fee, mode }),
         3 => any::<u8>().prop_map(|mask| Op::Include { mask }),
         1 => Just(Op::DropBuilt),
         2 => (0u8..6).prop_map(|n| Op::Advance { n }),
